@@ -167,9 +167,9 @@ func init() {
 			o.Check(e.X(fn, ret.Results[0]) == "(model.LabelSet).Fingerprint(makemap:model.LabelSet)", "result", "the key must be the fingerprint of the equal-label set", ret)
 		}
 		users := map[string]string{
-			"(*am/inhibit.InhibitRule).updateIndex":          "p0.Alert.Labels",
-			"(*am/inhibit.InhibitRule).findEqualSourceAlert": "p0",
-			"(*am/inhibit.InhibitRule).gcCallback":           "p0[i].Alert.Labels",
+			"(*am/inhibit.InhibitRule).updateIndex": "p0.Alert.Labels",
+			lookupFn(o):                             "p0",
+			"(*am/inhibit.InhibitRule).gcCallback":  "p0[i].Alert.Labels",
 		}
 		for name, arg := range users {
 			f := o.Fn(name)
@@ -191,12 +191,31 @@ func init() {
 
 	reg("C03", "C03.5", "T6", "findEqualSourceAlert / hasEqual tables: unknown key, vanished or resolved source → not found; two-sided exclusion", func(o *Ob) {
 		_ = o.E
-		fn := o.Fn("(*am/inhibit.InhibitRule).findEqualSourceAlert")
 		key := "(*am/inhibit.InhibitRule).fingerprintEquals(recv, p0)"
 		ig := "(*am/inhibit.index).Get(recv.sindex, " + key + ")"
 		sg := "(*am/store.Alerts).Get(recv.scache, " + ig + "#0)"
 		has := L(ig+"#1", true)
 		gOK := L("("+sg+"#1 == nil)", true)
+		he := o.Fn("(*am/inhibit.InhibitRule).hasEqual")
+		excl := L("p1", true)
+		if lookupFn(o) == fnName(he) {
+			// the lookup is part of hasEqual itself: one table over both steps
+			res := LRe(`\(\*model\.Alert\)\.ResolvedAt\(`+regexpQuote(sg)+`#0(\.Alert)?, p2\)`, true)
+			two := LRe(`\(am/pkg/labels\.Matchers\)\.Matches\(recv\.TargetMatchers, `+regexpQuote(sg)+`#0(\.Alert)?\.Labels\)`, true)
+			fpv := "~\\(\\*model\\.Alert\\)\\.Fingerprint\\(" + regexpQuote(sg) + "#0(\\.Alert)?\\)"
+			none := [][]string{Vals("0"), Vals("false")}
+			o.Table(he, "hasEqual", []Row{
+				{Name: "no indexed source", Assume: A(has.Neg()), Ret: none},
+				{Name: "indexed source vanished", Assume: A(has, gOK.Neg()), Ret: none},
+				{Name: "indexed source resolved at now", Assume: A(has, gOK, res), Ret: none},
+				{Name: "two-sided target, two-sided source", Assume: A(has, gOK, res.Neg(), excl, two), Ret: none},
+				{Name: "two-sided target, one-sided source", Assume: A(has, gOK, res.Neg(), excl, two.Neg()), Ret: [][]string{Vals(fpv), Vals("true")}},
+				{Name: "one-sided target", Assume: A(has, gOK, res.Neg(), excl.Neg()), Ret: [][]string{Vals(fpv), Vals("true")}},
+			})
+			o.MinSites(6)
+			return
+		}
+		fn := o.Fn("(*am/inhibit.InhibitRule).findEqualSourceAlert")
 		res := LRe(`\(\*model\.Alert\)\.ResolvedAt\(`+regexpQuote(sg)+`#0(\.Alert)?, p1\)`, true)
 		o.Table(fn, "find", []Row{
 			{Name: "no indexed source", Assume: A(has.Neg()), Ret: [][]string{Vals("nil"), Vals("false")}},
@@ -204,10 +223,8 @@ func init() {
 			{Name: "indexed source resolved at now", Assume: A(has, gOK, res), Ret: [][]string{Vals("nil"), Vals("false")}},
 			{Name: "indexed source firing", Assume: A(has, gOK, res.Neg()), Ret: [][]string{Vals(sg + "#0"), Vals("true")}},
 		})
-		he := o.Fn("(*am/inhibit.InhibitRule).hasEqual")
 		fe := "(*am/inhibit.InhibitRule).findEqualSourceAlert(recv, p0, p2)"
 		found := L(fe+"#1", true)
-		excl := L("p1", true)
 		two := LRe(`\(am/pkg/labels\.Matchers\)\.Matches\(recv\.TargetMatchers, `+regexpQuote(fe)+`#0(\.Alert)?\.Labels\)`, true)
 		fpv := "~\\(\\*model\\.Alert\\)\\.Fingerprint\\(" + regexpQuote(fe) + "#0(\\.Alert)?\\)"
 		o.Table(he, "hasEqual", []Row{
@@ -221,7 +238,7 @@ func init() {
 
 	reg("C03", "C03.7", "T8", "completeness of the negative verdict: after rejecting the single indexed candidate the lookup scans the cached sources, or the index is re-elected on self-update and on GC", func(o *Ob) {
 		e := o.E
-		find := o.Fn("(*am/inhibit.InhibitRule).findEqualSourceAlert")
+		find := o.Fn(lookupFn(o))
 		he := o.Fn("(*am/inhibit.InhibitRule).hasEqual")
 		ui := o.Fn("(*am/inhibit.InhibitRule).updateIndex")
 		gc := o.Fn("(*am/inhibit.InhibitRule).gcCallback")
@@ -416,4 +433,64 @@ func leavesLoopAlive(e *Eng, l *Loop) bool {
 		}
 	}
 	return false
+}
+
+// sourceIndexCellRule: the inhibitor's per-rule index maps the fingerprint of the equal labels to one source alert.
+// It is a plain cell per key: Set files the given value under the given key, Get reads that key, Delete removes it.
+func sourceIndexCellRule(o *Ob) {
+	e := o.E
+	set := o.Fn("(*am/inhibit.index).Set")
+	n := 0
+	for _, in := range AllInstrs(set) {
+		if m, ok := in.(*ssa.MapUpdate); ok {
+			n++
+			o.Site(m, "index.Set")
+			o.Check(e.X(set, m.Map) == "recv.items" && e.X(set, m.Key) == "p0" && e.X(set, m.Value) == "p1", "index-set", "index.Set must file the given value under the given key, files "+e.X(set, m.Value)+" under "+e.X(set, m.Key), m)
+			o.Check(len((&Walk{Fn: set, Barrier: IsInstr(m)}).FromEntry().Returns()) == 0, "index-set-skipped", "index.Set can return without filing", m)
+		}
+	}
+	o.Check(n == 1, "index-set-site", "index.Set must write the map in one place", fnFirst(set))
+	get := o.Fn("(*am/inhibit.index).Get")
+	o.Site(fnFirst(get), "index.Get")
+	rg := (&Walk{Fn: get}).FromEntry()
+	for _, ret := range rg.Returns() {
+		v0, v1 := e.ValStrs(get, e.RetVals(rg, ret, 0)), e.ValStrs(get, e.RetVals(rg, ret, 1))
+		ok := len(v0) >= 1 && len(v1) >= 1
+		for _, v := range v0 {
+			ok = ok && (v == "recv.items[p0]#0" || v == "phi(cyc|recv.items[p0]#0)")
+		}
+		for _, v := range v1 {
+			ok = ok && (v == "recv.items[p0]#1" || v == "phi(cyc|recv.items[p0]#1)")
+		}
+		o.Check(ok, "index-get", "index.Get must return what is filed under the given key, returns "+strings.Join(v0, "|")+", "+strings.Join(v1, "|"), ret)
+	}
+	del := o.Fn("(*am/inhibit.index).Delete")
+	d := 0
+	for _, in := range AllInstrs(del) {
+		if c, ok := in.(*ssa.Call); ok {
+			if b, isB := c.Call.Value.(*ssa.Builtin); isB && b.Name() == "delete" {
+				d++
+				o.Site(c, "index.Delete")
+				o.Check(e.X(del, c.Call.Args[0]) == "recv.items" && e.X(del, c.Call.Args[1]) == "p0", "index-delete", "index.Delete must remove the given key", c)
+			}
+		}
+	}
+	o.Check(d == 1, "index-delete-site", "index.Delete no longer removes the entry", fnFirst(del))
+	o.LockedAccesses("am/inhibit.index", "items", "mtx", map[string]string{"am/inhibit.newIndex": "constructor"})
+}
+
+func init() {
+	reg("C03", "C03.18", "T3,T5", "the source index is a cell per equal-labels key: Set files the given fingerprint under the given key, Get reads that key, Delete removes it, all under the index lock", func(o *Ob) {
+		sourceIndexCellRule(o)
+		o.MinSites(3)
+	})
+}
+
+// lookupFn: the function that looks the equal source up in the index: findEqualSourceAlert in the reference tree, or
+// hasEqual when the lookup was folded into its only caller.
+func lookupFn(o *Ob) string {
+	if o.E.byName[long("(*am/inhibit.InhibitRule).findEqualSourceAlert")] != nil {
+		return "(*am/inhibit.InhibitRule).findEqualSourceAlert"
+	}
+	return "(*am/inhibit.InhibitRule).hasEqual"
 }
